@@ -650,6 +650,32 @@ func (se *SpecEnv) callSpec(c *ast.CallExpr) Value {
 		return r
 	case "ite":
 		return se.fr.v.mergeV(targ(0), arg(1), arg(2))
+	case "iterfresh": // iterfresh(x): the slice / pointer x is backed by an object allocated in the current iteration of
+		// the innermost annotated loop (after its head was last crossed): what is handed to a callee that keeps it
+		// must not be a buffer that a later iteration writes again
+		var rec func(v Value) *Term
+		rec = func(v Value) *Term {
+			switch a := v.(type) {
+			case *SliceV:
+				return F.Bool(a.Obj != nil && !a.Obj.Entry && a.Obj.ID > se.state().headObj)
+			case *PtrV:
+				return F.Bool(a.Obj != nil && !a.Obj.Entry && a.Obj.ID > se.state().headObj)
+			case *IteV:
+				return F.Ite(a.C, rec(a.A), rec(a.B))
+			}
+			unsup("iterfresh() of %T", v)
+			return nil
+		}
+		return rec(arg(0))
+	case "cur": // cur(x): the current value of the source variable x (a parameter name alone denotes its entry value)
+		id, isId := c.Args[0].(*ast.Ident)
+		if !isId {
+			unsup("cur(<variable>)")
+		}
+		if v, ok := se.state().srcVar[id.Name]; ok && !se.state().srcAdr[id.Name] {
+			return v
+		}
+		return se.ident(id.Name)
 	case "derefor": // derefor(p, d): *p when the pointer p is not nil, d otherwise (no nil obligation)
 		var rec func(v Value) Value
 		rec = func(v Value) Value {
@@ -832,6 +858,20 @@ func (se *SpecEnv) callSpec(c *ast.CallExpr) Value {
 			unsup("lewords: slice without symbolic contents")
 		}
 		return F.App("big.fromwords", SInt, arr.Arr, F.Add(sl.Off, targ(1)), F.Add(sl.Off, sl.Len))
+	case "bigparse", "bigparseok": // the integer denoted by a numeric string in base 0 (prefix-selected base), and whether
+		// the string denotes one: the uninterpreted functions that big.Int.SetString is modelled by
+		sl, ok := se.deref(arg(0)).(*SliceV)
+		if !ok || sl.Obj == nil {
+			unsup("%s: not a string", name)
+		}
+		arr, ok := se.fr.v.getPath(se.fr.v.content(se.state(), sl.Obj), sl.Path).(*ArrV)
+		if !ok {
+			unsup("%s: string without symbolic contents", name)
+		}
+		if name == "bigparseok" {
+			return F.App("big.parseok", SBool, arr.Arr, sl.Off, sl.Len, F.I64(0))
+		}
+		return F.App("big.parse", SInt, arr.Arr, sl.Off, sl.Len, F.I64(0))
 	case "bepre": // bepre(b, n): big-endian value of the first n bytes of the slice b (symbolic n): big.frombytes, whose
 		// recursive meaning the contract states in its preamble
 		sl, ok := se.deref(arg(0)).(*SliceV)
@@ -854,29 +894,42 @@ func (se *SpecEnv) callSpec(c *ast.CallExpr) Value {
 		rd := func(x Value) Value {
 			if pv, ok := x.(*PtrV); ok && pv.Obj != nil && len(pv.Path) > 0 {
 				if c := se.fr.v.content0(se.state(), pv.Obj); c != nil {
-					if inner, isP := se.fr.v.getPath(c, pv.Path).(*PtrV); isP {
+					switch inner := se.fr.v.getPath(c, pv.Path).(type) {
+					case *PtrV:
 						return inner
+					case *SliceV:
+						return inner // a slice-typed cell: the slice it holds
 					}
 				}
 			}
 			return x
 		}
-		a, b := rd(arg(0)), rd(arg(1))
-		pa, ok1 := a.(*PtrV)
-		pb, ok2 := b.(*PtrV)
-		if ok1 && ok2 {
-			return F.Bool(pa.Obj == pb.Obj && samePath(pa.Path, pb.Path))
-		}
-		if sa, oks := a.(*SliceV); oks {
-			// slices: the same window of the same backing object
-			if sb, okt := b.(*SliceV); okt {
-				if sa.Obj != sb.Obj || !samePath(sa.Path, sb.Path) {
-					return F.False()
-				}
-				return F.And(F.Eq(sa.Off, sb.Off), F.Eq(sa.Len, sb.Len))
+		var same2 func(a, b Value) *Term
+		same2 = func(a, b Value) *Term {
+			if ia, isI := a.(*IteV); isI {
+				return F.Ite(ia.C, same2(ia.A, b), same2(ia.B, b))
 			}
+			if ib, isI := b.(*IteV); isI {
+				return F.Ite(ib.C, same2(a, ib.A), same2(a, ib.B))
+			}
+			pa, ok1 := a.(*PtrV)
+			pb, ok2 := b.(*PtrV)
+			if ok1 && ok2 {
+				return F.Bool(pa.Obj == pb.Obj && samePath(pa.Path, pb.Path))
+			}
+			if sa, oks := a.(*SliceV); oks {
+				// slices: the same window of the same backing object
+				if sb, okt := b.(*SliceV); okt {
+					if sa.Obj != sb.Obj || !samePath(sa.Path, sb.Path) {
+						return F.False()
+					}
+					return F.And(F.Eq(sa.Off, sb.Off), F.Eq(sa.Len, sb.Len))
+				}
+			}
+			unsup("same() on %T,%T", a, b)
+			return nil
 		}
-		unsup("same() on %T,%T", a, b)
+		return same2(rd(arg(0)), rd(arg(1)))
 	case "isnil":
 		var isNil func(x Value) *Term
 		isNil = func(x Value) *Term {
